@@ -7,8 +7,8 @@ label="$1"; what="$2"; shift 2
 wt=$(mktemp -d /tmp/rtfreg.XXXXXX)
 case "$what" in
   rev:*) git -C /repo worktree add -q --detach "$wt" "${what#rev:}" || exit 2 ;;
-  *) git -C /repo worktree add -q --detach "$wt" HEAD || exit 2
-     git -C "$wt" apply "$what" || { echo "patch does not apply: $what"; git -C /repo worktree remove --force "$wt"; exit 2; } ;;
+  *) git -C /repo worktree add -q --detach "$wt" "${BASE:-HEAD}" || exit 2
+     git -C "$wt" apply "$what" 2>/dev/null || git -C "$wt" apply --3way "$what" || { echo "patch does not apply: $what"; git -C /repo worktree remove --force "$wt"; exit 2; } ;;
 esac
 cd /verif || exit 2
 for id in "$@"; do
